@@ -18,6 +18,10 @@ CLAIMED = {
          "After every add/insert(i)/remove(i) (every index incl. beyond the end) the live paragraph list, the strict re-read, the text of all other paragraphs and the ordered comment lines are compared with the model; returned handles are kept and checked later; histories start from the empty document and generated documents of every layout; all histories of length <=3 (quick) / <=4 (thorough) over an 18-operation alphabet on 7 start documents are enumerated."),
  "C07": ("invariant + reference-model oracle on wrap_and_sort results over generated documents x settings product (indentation, empty-first-line, width, comparators, formatters incl. logged formatter calls), at entry/paragraph/document/control-file level; idempotence by double application",
          "For every generated (document, settings) pair the result is printed, strictly re-read and compared with what the returned object reports and with the input model (multiset/order of paragraphs and fields, value lines or the logged formatter output, comment lines in front of the same field/paragraph, exact continuation indentation, single blank-line separation) and the reformatting is applied a second time; control files additionally check Source-first/Package order, Uploaders splitting and agreement of relation fields with the crate's relation normaliser."),
+ "C09": ("round-trip/differential oracle over exhaustive short-string sweep of the relation token alphabet, every prefix and structural-character deletion of generated fields, mutated fields",
+         "parse_relaxed(s, allow) for allow in {false,true} must print s; from_str must succeed exactly when the relaxed reader (no substvars) is clean and then print s; Entry/Relation::from_str results must print a substring of s. Checked on every string of length <=4 (quick) / <=6 (thorough) over 23 token representatives and on generated fields with all prefixes, single-token deletions and random mutations."),
+ "C10": ("reference-model oracle: grammar-generated relationship fields (model known by construction) compared with the lossless accessors and with the lossy reader; full factorial over a relation's optional parts",
+         "For each generated field the lossless reader must report no error and entries/alternatives/name/archqual/operator/version (as text and as Debian version)/architectures with negation/profile groups/substvars must equal the generator's model; the lossy reader must accept substvar-free fields and give the same structure. 3750-row factorial over archqual x version shape x operator x architectures x profile groups x position, plus random fields with free whitespace."),
 }
 TODO = {}
 props = [json.loads(l) for l in open("/verif/properties.jsonl")]
